@@ -55,6 +55,9 @@ def _uniq_ids(rng, n, chars="abcuttUTT0123456789-_.é", spaces=False):
         s = "".join(rng.choice(chars) for _ in range(rng.randint(1, 6)))
         if spaces and rng.random() < 0.4:
             s = s + " " + "".join(rng.choice(chars) for _ in range(rng.randint(1, 3)))
+        if spaces and rng.random() < 0.15:
+            # what stands between the last pair of parentheses IS the id, blanks at its ends included
+            s = rng.choice([" " + s, s + " ", " " + s + " "])
         if s not in out:
             out.append(s)
     return out
